@@ -147,7 +147,7 @@ PROPS = {
                 "2048 - exit status and stream contract of the release binary. Non-trivial: the stage returns errors / the process exits 1; "
                 "distinct by input.",
         "trusted_base": TB_COMMON + [
-            "modelled, not verified: no-panic and termination are theorems of the tokenizer MODEL; for the parser and the checker the absence of panics is explored (catch_unwind, process isolation)",
+            "modelled, not verified: no-panic is a theorem of the tokenizer MODEL and of the parser MODEL (mirror of parse()); termination is a theorem for the tokenizer model only; for the checker the absence of panics is explored (catch_unwind, process isolation)",
         ],
         "assumptions": ["stack exhaustion from syntactic depth beyond ~5000 nested parentheses / 10^4 chained operators (16 MiB stack, release build) is outside the explored sizes and outside the model (DESIGN D16)"],
     },
@@ -407,10 +407,12 @@ MANIFEST_TEXT = {
     },
     "C14": {
         "text": "Proved for the models: the tokenizer never reaches its panic site, terminates (structural recursion) and a failing tokenizer "
-                "or parser returns a non-empty error list. Explored on the real code: no panic / abort / hang on all short token sequences, "
+                "or parser returns a non-empty error list; the mirror of parse() never reaches a panic site for any token list "
+                "(parse_top_never_panics: a tree with an error node always carries an error factory - the [ref:error_check] invariant, "
+                "proved through the memo table and all 36 parse functions - and check_definitions never meets a shifted hole). Explored on the real code: no panic / abort / hang on all short token sequences, "
                 "token soup, edited grammar sentences, raw bytes and perturbed programs (library, catch_unwind + watchdog), and the exit-"
-                "status / stdout / stderr contract of the release binary on byte strings including invalid UTF-8. Partial: panic-freedom of "
-                "the parser model and of the checker are not theorems.",
+                "status / stdout / stderr contract of the release binary on byte strings including invalid UTF-8. Partial: that the parser "
+                "model's fuel always suffices, and panic-freedom of the checker, are not theorems.",
         "design_ref": "DESIGN.md section 4, C14",
         "note": "Stack exhaustion by syntactic depth beyond the explored sizes is outside the model (named limit D16).",
         "technique": "Coq proofs on the tokenizer/parser models (no panic, non-empty errors) + exhaustive short-input and random robustness runs under process isolation",
